@@ -39,7 +39,7 @@ VarAgrees(v, var, o) ==
 Explicit == IsUGrid(B) \/ IsArakawa(B) \/ HasField(B.geom, "xb")
 
 Names == {"Completed", "SameConvention", "CellsAreOriginalCells", "SelectedKeepPolygon", "ValuesAreOriginal", "VariablesPresent",
-          "BindingState", "AnswerMatches", "QueryAnswer", "CellValues", "ExtractAnswer", "TrianglesPartitionView"}
+          "BindingState", "AnswerMatches", "QueryAnswer", "CellValues", "ExtractAnswer", "TrianglesPartitionView", "ExportMatchesView"}
 
 \* Triangulate: the triangles reported for position pos (0-based cell index pos) as coordinate triples
 TriNV(o) == Len(o.vertices)
@@ -124,6 +124,20 @@ Holds(name, e) ==
                     \/ Degenerate(RawPoly(B, n))
                     \/ (ts = <<>> /\ ~(n \in vq.sel /\ MaskAt(B, n) /\ Explicit))
                     \/ (MaskAt(B, n) /\ IsPartition(DedupRing(PolyAt(B, n)), ts))
+    [] name = "ExportMatchesView" ->
+         \* one feature per cell of THIS view that has a polygon, in the view's own order; the feature's linear index is the
+         \* position in the view and its ring is the original polygon of the cell at that position; no cell whose values the
+         \* view still shows is left out (geometry given explicitly)
+         (e.a = "Export" /\ e.obs.ok) =>
+            LET vq == objs[e.obj]  fs == e.obs.features IN
+            /\ \A k \in 1..Len(fs) :
+                 /\ fs[k].linear >= 0 /\ fs[k].linear < Len(vq.cells)
+                 /\ k > 1 => fs[k - 1].linear < fs[k].linear
+                 /\ (fs[k].linear >= 0 /\ fs[k].linear < Len(vq.cells)) =>
+                       (MaskAt(B, vq.cells[fs[k].linear + 1]) /\ SameRing(fs[k].coords, PolyOf(vq, fs[k].linear + 1)))
+            /\ \A pos \in 1..Len(vq.cells) :
+                 (vq.cells[pos] \in vq.sel /\ MaskAt(B, vq.cells[pos]) /\ Explicit /\ ~Degenerate(RawPoly(B, vq.cells[pos]))) =>
+                    \E k \in 1..Len(fs) : fs[k].linear = pos - 1
     [] name = "AnswerMatches" ->
          /\ (e.a = "Access" => e.obs.conv = out'.conv)
          /\ (e.a \in {"Copy", "ApplyMask", "SelectVariables", "Open"} => e.obs.subject = out'.new)
@@ -140,6 +154,7 @@ SeenOf(e) == {e.a, B.conv}
   \cup (IF e.a = "SelectCell" /\ objs[e.obj].cells # BaseViewOf(B).cells THEN {"cell-of-derived"} ELSE {})
   \cup (IF e.a = "ApplyMask" /\ e.mask <= Len(masks) /\ e.obj # 1 THEN {"mask-on-other-dataset"} ELSE {})
   \cup (IF e.a = "Triangulate" /\ objs[e.obj].cells # BaseViewOf(B).cells THEN {"triangulate-derived"} ELSE {})
+  \cup (IF e.a = "Export" /\ objs[e.obj].cells # BaseViewOf(B).cells THEN {"export-derived"} ELSE {})
   \cup (IF e.a = "Extract" THEN {"extract-" \o e.policy} ELSE {})
   \cup (IF e.a = "Extract" /\ Misses(objs[e.obj], e.cells) # {} THEN {"extract-with-miss"} ELSE {})
   \cup (IF e.a = "Extract" /\ objs[e.obj].cells # BaseViewOf(B).cells THEN {"extract-on-derived"} ELSE {})
@@ -165,6 +180,7 @@ Act(e) ==
     [] e.a = "SelectCell" -> SelectCell(e.obj, e.pos)
     [] e.a = "Extract" -> Extract(e.obj, e.cells, e.policy)
     [] e.a = "Triangulate" -> Triangulate(e.obj)
+    [] e.a = "Export" -> Export(e.obj)
 
 Step ==
   /\ ~Done /\ UNCHANGED B
